@@ -11,7 +11,7 @@
 EXTENDS Naturals, Sequences, FiniteSets, TLC, Json
 
 ValueClasses == {"plain", "markup", "quotes", "nonascii", "padded", "lookalike_close", "lookalike_cdata", "lookalike_entity",
-                 "long", "many", "newline", "backslash", "huge"}
+                 "long", "many", "newline", "backslash", "huge", "repeated"}
 Algs == {"sha1", "sha256"}
 Scn == [signResp : BOOLEAN, signAssert : BOOLEAN, enc : BOOLEAN, alg : Algs, binding : {"post", "redirect", "soap"},
         wantResp : BOOLEAN, wantAssert : BOOLEAN, wantEither : BOOLEAN, nameid : {"transient", "persistent"},
